@@ -201,6 +201,34 @@ func c06Reissue(addr string, cid int) (viol [][2]string, incon bool, frames int)
 	if n8003 != 1 || n8800 != 1 || n8001 != 2 {
 		bad("reply|wrong reply type|re-request scenario", fmt.Sprintf("conn %d: frames %04x", cid, ids))
 	}
+	// callbacks: the read callbacks saw what the TERMINAL sent that was handled and complete — two heartbeats and the
+	// reassembled upload — and nothing the server made up itself (the re-request is the server's own frame); the write callbacks
+	// saw the four frames written
+	if !svc.RaceMode && len(viol) == 0 {
+		t.Close()
+		rec := svc.Lookup(t.Phone, 10) // (the connection joined with its first handled message: packet 1, serial 10)
+		if rec == nil {
+			rec = svc.Lookup(t.Phone, 20)
+		}
+		if rec != nil && rec.WaitLeave(20*time.Second) {
+			reads := 0
+			for _, e := range rec.ReaderLog() {
+				if e.Kind != "read" {
+					continue
+				}
+				reads++
+				if e.ID == 0x8003 {
+					bad("callback|read callbacks != one per handled complete message", fmt.Sprintf("conn %d: the server's own re-request (0x8003) was reported to the read callbacks as a message of the terminal", cid))
+				}
+			}
+			if reads != 3 {
+				bad("callback|read callbacks != one per handled complete message", fmt.Sprintf("conn %d (re-request scenario): %d read callbacks for 3 handled complete messages", cid, reads))
+			}
+			if w := len(rec.WriterLog()); w != 4 {
+				bad("callback|write callbacks != one per reply", fmt.Sprintf("conn %d (re-request scenario): %d write callbacks for 4 frames written", cid, w))
+			}
+		}
+	}
 	return
 }
 
